@@ -85,14 +85,14 @@ Record cobj := mkc { c_k : nat; c_m : nat; c_pkg : nat }.
 Record cstate := mkcs { cobjs : list cobj; keys : list key; memos : list memo }.
 Record world := mkw { w_st : state; w_cs : cstate }.
 
-Definition st0 : state := mkst [] [] [mkp 0 true; mkp 1 true; mkp 2 true] [] [] [].
+Definition st0 : state := mkst [] [] [mkp 0%nat true; mkp 1%nat true; mkp 2%nat true] [] [] [].
 Definition cs0 : cstate := mkcs [] [] [].
 Definition w0 : world := mkw st0 cs0.
 
-Definition d_imol := mkimol false 0 0 [].
-Definition d_obj := mkobj 0 0 [].
-Definition d_cobj := mkc 0 0 0.
-Definition d_p := mkp 0 false.
+Definition d_imol := mkimol false O O [].
+Definition d_obj := mkobj O O [].
+Definition d_cobj := mkc O O O.
+Definition d_p := mkp O false.
 
 Definition row (s : state) (r : nat) : vec := nth r (rows s) [].
 Definition arr (s : state) (r : nat) : list nat := nth r (arrs s) [].
@@ -132,7 +132,7 @@ Fixpoint new_rows (s : state) (vs : list vec) : state * list nat :=
   end.
 
 (* ---------- reading the current state of an object ---------- *)
-Definition nchem : nat := 3.
+Definition nchem : nat := 3%nat.
 Definition is_multi (s : state) (i : nat) : bool := i_multi (imol_of s (o_imol (obj_of s i))).
 Definition data_rows (s : state) (im : imol) : list vec :=
   if i_multi im then map (row s) (arr s (i_data im)) else [row s (i_data im)].
@@ -153,7 +153,7 @@ Definition cur_key (s : state) (i : nat) (nophase : bool) : option (Q * literal 
     let comps := map (fun r => vdivs r total) (data_rows s im) in
     let lp := if nophase then LNo
               else if i_multi im then LMany (i_phases im) else LOne (phase_of s im) in
-    let ck := if i_multi im then CKn comps else CK1 (nth 0 comps []) in
+    let ck := if i_multi im then CKn comps else CK1 (nth O comps []) in
     Some (total, mklit lp (fst tp) (snd tp), ck).
 
 Inductive rd := RNone | RVal (v : Q).
@@ -268,7 +268,12 @@ Definition set_flow (s : state) (i : nat) (p : phase) (j : nat) (v : Q) : state 
   if i_multi im then
     match index_of p (i_phases im) with
     | None => fail s EUndefPhase
-    | Some k => let r := nth k (arr s (i_data im)) O in ok (wr_row s r (upd (row s r) j v))
+    | Some k =>
+        (* after link_with between MultiStreams with different phase sets, _phases and data.rows can differ in length *)
+        match nth_error (arr s (i_data im)) k with
+        | None => fail s EIndex
+        | Some r => ok (wr_row s r (upd (row s r) j v))
+        end
     end
   else ok (wr_row s (i_data im) (upd (row s (i_data im)) j v)).
 
@@ -289,7 +294,7 @@ Definition empty (s : state) (i : nat) : state * option err :=
 
 (* indexer._copy_without_data + given data ref: new Phase copy (unlocked) for 1-d *)
 Definition copy_imol_with (s : state) (im : imol) (d : nat) : state * nat :=
-  if i_multi im then new_imol s (mkimol true d 0 (i_phases im))
+  if i_multi im then new_imol s (mkimol true d O (i_phases im))
   else let (s1, pr) := new_p s (mkp (phase_of s im) false) in new_imol s1 (mkimol false d pr []).
 (* data.copy() *)
 Definition copy_data (s : state) (im : imol) : state * nat :=
@@ -345,7 +350,7 @@ Definition single_to_multi (s : state) (i : nat) (ps : list phase) : state :=
   let d := row s (i_data im) in
   let (s1, rs) := new_rows s (map (fun q => if Nat.eqb q p then d else vzero (length d)) ps) in
   let (s2, a) := new_arr s1 rs in
-  let (s3, ir) := new_imol s2 (mkimol true a 0 ps) in
+  let (s3, ir) := new_imol s2 (mkimol true a O ps) in
   wr_obj s3 i (mkobj ir (o_tc o) []).
 
 (* MaterialIndexer.to_material_indexer(ps) *)
@@ -361,11 +366,35 @@ Definition multi_rephase (s : state) (i : nat) (ps : list phase) : state * optio
                      | None => vzero nchem end in
     let (s1, rs) := new_rows s (map content ps) in
     let (s2, a) := new_arr s1 rs in
-    let (s3, ir) := new_imol s2 (mkimol true a 0 ps) in
+    let (s3, ir) := new_imol s2 (mkimol true a O ps) in
     ok (wr_obj s3 i (mkobj ir (o_tc o) (o_views o))).
 
 Definition copy_tc (s : state) (i j : nat) : state * option err :=
   ok (wr_tc s (o_tc (obj_of s i)) (tc_of s (o_tc (obj_of s j)))).
+
+(* Stream.copy_flow(other) with default arguments, same chemicals: self.mol[:] = other.mol *)
+Definition copy_flow (s : state) (i j : nat) : state * option err :=
+  ok (wr_row s (i_data (imol_of s (o_imol (obj_of s i)))) (row s (i_data (imol_of s (o_imol (obj_of s j)))))).
+
+(* indexer.reset_chemicals(chemicals) for a package with the same chemicals in the same order: the data
+   is re-created (new SparseVector / SparseArray), and _reset_thermo re-creates the indexers of the views *)
+Definition reset_chem (s : state) (i : nat) : state :=
+  let o := obj_of s i in
+  let im := imol_of s (o_imol o) in
+  (* 2-d: SparseArray.from_shape([len(_phases), size]) filled from old_data[i, j], i < len(_phases) *)
+  let (s1, d) := if i_multi im
+                 then let (sa, rs) := new_rows s (firstn (length (i_phases im)) (map (row s) (arr s (i_data im)))) in new_arr sa rs
+                 else copy_data s im in
+  let s2 := wr_imol s1 (o_imol o) (mkimol (i_multi im) d (i_ph im) (i_phases im)) in
+  if i_multi im then
+    fold_left (fun st pn =>
+                 match index_of (fst pn) (i_phases im) with
+                 | Some k => let (st1, ir) := new_imol st (mkimol false (nth k (arr st d) O) (fst pn) []) in
+                             let v := obj_of st1 (snd pn) in
+                             wr_obj st1 (snd pn) (mkobj ir (o_tc v) (o_views v))
+                 | None => st
+                 end) (o_views o) s2
+  else s2.
 
 (* Stream.copy_phase: direct slot write on Phase, __setattr__ on LockedPhase *)
 Definition copy_phase (s : state) (i j : nat) : state * option err :=
@@ -408,7 +437,7 @@ Inductive op :=
 | OScale (i : nat) (k : Q) | OFmol (i : nat) (k : Q) | OEmpty (i : nat)
 | OProxy (i : nat) | OFlowProxy (i : nat) | OCopy (i : nat)
 | OLink (i j : nat) (fl ph tp : bool) | OUnlink (i : nat)
-| OCopyLike (i j : nat) | OCopyTC (i j : nat) | OCopyPhase (i j : nat)
+| OCopyLike (i j : nat) | OCopyFlow (i j : nat) | OCopyTC (i j : nat) | OCopyPhase (i j : nat)
 | OMix (i : nat) (srcs : list nat) (energy : bool) (Tnew : Q)
 | OView (i : nat) (p : phase)
 | OSetPhases (i : nat) (ps : list phase)
@@ -429,7 +458,7 @@ Fixpoint find_view (p : phase) (l : list (phase * nat)) : option nat :=
 
 (* sum([i.H for i in streams], Q): one memo read per source, in order *)
 Fixpoint read_all (w : world) (l : list nat) : world :=
-  match l with [] => w | j :: t => read_all (fst (get_property w j 0 true false)) t end.
+  match l with [] => w | j :: t => read_all (fst (get_property w j O true false)) t end.
 
 Definition step (w : world) (o : op) : world * obs :=
   let s := w_st w in let c := w_cs w in
@@ -443,7 +472,7 @@ Definition step (w : world) (o : op) : world * obs :=
                  new_imol sb (mkimol false r pr [])
         | _ => let (sa, rs) := new_rows s1 flows in
                let (sb, a) := new_arr sa rs in
-               new_imol sb (mkimol true a 0 ps)
+               new_imol sb (mkimol true a O ps)
         end in
       let (s3, n) := new_obj s2 (mkobj ir tr []) in
       (mkw s3 (new_cobj_fresh c pkg), BIdx n)
@@ -465,6 +494,7 @@ Definition step (w : world) (o : op) : world * obs :=
       | (s1, None) => (mkw s1 (reset_cache s1 c i), BOk)
       end
   | OCopyLike i j => lift w (copy_like_11 s i j)
+  | OCopyFlow i j => lift w (copy_flow s i j)
   | OCopyTC i j => lift w (copy_tc s i j)
   | OCopyPhase i j => lift w (copy_phase s i j)
   | OMix i srcs energy Tnew =>
@@ -487,13 +517,19 @@ Definition step (w : world) (o : op) : world * obs :=
             match index_of p (i_phases im) with
             | None => (w, BErr EUndefPhase)
             | Some k =>
-                let (s1, ir) := new_imol s (mkimol false (nth k (arr s (i_data im)) O) p []) in
+              match nth_error (arr s (i_data im)) k with
+              | None => (w, BErr EIndex)
+              | Some rr =>
+                let (s1, ir) := new_imol s (mkimol false rr p []) in
                 let (s2, n) := new_obj s1 (mkobj ir (o_tc ob) []) in
                 let s3 := wr_obj s2 i (mkobj (o_imol ob) (o_tc ob) (o_views ob ++ [(p, n)])) in
                 (mkw s3 (new_cobj_fresh c (c_pkg (cobj_of c i))), BIdx n)
+              end
             end
         end
-      else if Nat.eqb p (phase_of s im) then (w, BIdx i) else (w, BErr EUndefPhase)
+      (* Stream.__getitem__: `raise tmo.UndefinedPhase(phase)` itself fails with AttributeError
+         (the name lives in thermosteam.exceptions) *)
+      else if Nat.eqb p (phase_of s im) then (w, BIdx i) else (w, BErr EOther)
   | OSetPhases i ps =>
       (* ps sorted, duplicate-free (phase_tuple); resolved by the harness *)
       let im := imol_of s (o_imol (obj_of s i)) in
@@ -510,12 +546,12 @@ Definition step (w : world) (o : op) : world * obs :=
       end
   | OResetCache i => (mkw s (reset_cache s c i), BOk)
   | OSetPkg i pkg =>
-      (* _reset_thermo restricted to a package with the same chemicals in the same order:
-         thermo replaced, reset_cache(), views get the package too *)
+      (* _reset_thermo(thermo), thermo is not self._thermo (resolved by the harness), same chemical order:
+         thermo replaced, indexer.reset_chemicals, reset_cache(), views get new indexers and the package *)
       let c1 := reset_cache s c i in
       let setp cc n := let co := cobj_of cc n in mkcs (upd (cobjs cc) n (mkc (c_k co) (c_m co) pkg)) (keys cc) (memos cc) in
       let c2 := fold_left setp (i :: (if is_multi s i then map snd (o_views (obj_of s i)) else [])) c1 in
-      (mkw s c2, BOk)
+      (mkw (reset_chem s i) c2, BOk)
   | ONop => (w, BOk)
   end.
 
@@ -562,11 +598,11 @@ Definition snap_of (w : world) (i : nat) : snap :=
   mksnap (i_multi im) (if i_multi im then i_phases im else [phase_of s im]) (data_rows s im)
          (fst (tc_of s (o_tc o))) (snd (tc_of s (o_tc o)))
          (memo_of c (c_m co)) (match key_of c (c_k co) with None => false | Some _ => true end)
-         (first_same (fun j => c_m (cobj_of c j)) (c_m co) n 0)
-         (first_same (fun j => c_k (cobj_of c j)) (c_k co) n 0)
-         (first_same (fun j => o_tc (obj_of s j)) (o_tc o) n 0)
-         (first_same first_row (first_row i) n 0)
-         (first_same (fun j => o_imol (obj_of s j)) (o_imol o) n 0).
+         (first_same (fun j => c_m (cobj_of c j)) (c_m co) n O)
+         (first_same (fun j => c_k (cobj_of c j)) (c_k co) n O)
+         (first_same (fun j => o_tc (obj_of s j)) (o_tc o) n O)
+         (first_same first_row (first_row i) n O)
+         (first_same (fun j => o_imol (obj_of s j)) (o_imol o) n O).
 
 Definition memo_eqb (a b : list (nat * Q)) : bool :=
   list_eqb (fun x y => Nat.eqb (fst x) (fst y) && qapproxb (snd x) (snd y)) a b.
@@ -580,10 +616,10 @@ Definition snap_eqb (a b : snap) : bool :=
 (* the property-package stub used by the harness (same formula on both sides) *)
 Definition stub_w (name : nat) : Q :=
   nth name [1; 1#2; 2; 1#4; 4; 1#8; 8; 1#16; 16] 1.
-Definition stub_a (pkg : nat) : vec := if Nat.eqb pkg 0 then [8; 16; 32] else [24; 40; 4].
+Definition stub_a (pkg : nat) : vec := if Nat.eqb pkg O then [8; 16; 32] else [24; 40; 4].
 Definition stub_calc1 (pkg name : nat) (p : option phase) (z : vec) (T P : Q) : Q :=
-  stub_w name * (inject_Z (Z.of_nat (3 * (name + 1) + 7 * pkg))
-                 + match p with None => 0 | Some q => inject_Z (Z.of_nat (5 * (q + 1))) end
+  stub_w name * (inject_Z (Z.of_nat (3 * (name + 1) + 7 * pkg)%nat)
+                 + match p with None => 0 | Some q => inject_Z (Z.of_nat (5 * (q + 1))%nat) end
                  + vdot (stub_a pkg) z + T / 64 + P / 16384).
 Definition stub_calcx (pkg name : nat) (l : list (phase * vec)) (T P : Q) : Q :=
   fold_right Qplus 0 (map (fun pz => stub_calc1 pkg name (Some (fst pz)) (snd pz) T P) l).
@@ -592,4 +628,4 @@ Definition run_eqb (shared : bool) (ops : list op) (expect : list obs) (final : 
   let (w, bs) := run stub_calc1 stub_calcx shared w0 ops in
   list_eqb obs_eqb bs expect
   && Nat.eqb (length (objs (w_st w))) (length final)
-  && list_eqb snap_eqb (map (snap_of w) (seq 0 (length final))) final.
+  && list_eqb snap_eqb (map (snap_of w) (seq O (length final))) final.
